@@ -1003,6 +1003,58 @@ func (se *specEnv) call(e *SExpr) SVal {
 			sfail("ncalls: %s is not declared `traced`", key)
 		}
 		return SVal{f.ctx.comp(se.cur, "$ncalls!"+key, SInt), ti}
+	case "returned":
+		// returned("pkg.F", args..., results...): a call to the `traced` function F with these arguments completed
+		// and returned these results, on the way here
+		key := e.Args[0].Str
+		target := f.ctx.eng.fnByKey[key]
+		if target == nil {
+			sfail("returned: unknown function %q", key)
+		}
+		if ct := f.ctx.eng.contractFor(target); ct == nil || !ct.Traced {
+			sfail("returned: %s is not declared `traced`", key)
+		}
+		var ts []*Term
+		for _, a := range e.Args[1:] {
+			ts = append(ts, se.term(a))
+		}
+		return SVal{f.ctx.uf("returned!"+key, SBool, ts...), tb}
+	case "lastarg", "lastres":
+		// lastarg("pkg.F", n) / lastres("pkg.F", n): argument / result n of the most recent completed call to the
+		// `traced` function F (ghost registers; unknown code may have made further calls)
+		key := e.Args[0].Str
+		target := f.ctx.eng.fnByKey[key]
+		if target == nil {
+			sfail("%s: unknown function %q", e.Name, key)
+		}
+		if ct := f.ctx.eng.contractFor(target); ct == nil || !ct.Traced {
+			sfail("%s: %s is not declared `traced`", e.Name, key)
+		}
+		n := int(e.Args[1].Int)
+		sig := target.Signature
+		var tt types.Type
+		if e.Name == "lastres" {
+			if n >= sig.Results().Len() {
+				sfail("lastres: %s has %d results", key, sig.Results().Len())
+			}
+			tt = sig.Results().At(n).Type()
+		} else {
+			k := n
+			if sig.Recv() != nil {
+				if n == 0 {
+					tt = sig.Recv().Type()
+				}
+				k = n - 1
+			}
+			if tt == nil {
+				if k < 0 || k >= sig.Params().Len() {
+					sfail("lastarg: %s has no argument %d", key, n)
+				}
+				tt = sig.Params().At(k).Type()
+			}
+		}
+		tt = f.subst(tt)
+		return SVal{f.ctx.comp(se.cur, fmt.Sprintf("$%s!%s!%d", e.Name, key, n), f.sortOf(tt)), tt}
 	case "called":
 		// called("pkg.F", args...): a call to the `traced` function F with these arguments was made on the way here
 		key := e.Args[0].Str
